@@ -312,3 +312,4 @@ MANIFEST = {
             "position. save()'s device/metadata restoration is not in try/finally (advisory).",
     "technique": "first-match dispatch evaluation + MRO-resolved call reachability + CFG dominance + key-set agreement (AST)",
 }
+MANIFEST["text"] += ' Also: every parameter receives its own optimizer-state dict on re-binding (no shared mutable value); the preprocessing parameters recorded for the automatic reload are parameters of preprocess, recorded under their own name, and the recorded object padding is the effective (power-of-two adjusted) padding that was used (R7).'
